@@ -21,13 +21,20 @@ structure DS where
   evs    : List String := []
   rets   : List (Nat × Nat) := []
   known  : List Nat := []                 -- job ids used so far
+  big    : Bool := false                  -- Timer.Async: the backing array shrank during this op (cap > 1024 branch)
+  quiet  : Bool := false                  -- bursts: the event list is not printed, do not build it
 
 def DS.conn (d : DS) (c : Nat) : St := d.conns.getD c {}
 def DS.setConn (d : DS) (c : Nat) (s : St) : DS := { d with conns := d.conns.set c s }
 def DS.isGated (d : DS) (j : Nat) : Bool := ((d.gated.find? (·.1 == j)).map (·.2)).getD true
-def DS.emit (d : DS) (c : Nat) (k : String) (j : Nat) : DS := { d with evs := d.evs ++ [s!"{c}.{k}{j}"] }
+def DS.emit (d : DS) (c : Nat) (k : String) (j : Nat) : DS :=
+  if d.quiet then d else { d with evs := d.evs ++ [s!"{c}.{k}{j}"] }
 
-def tryStep (d : DS) (c : Nat) (a : Act) : Option DS := (step d.kind (d.conn c) a).map (d.setConn c)
+/-- the histories (`log`, `done`, `acc`) are ghost state: no step reads them.  During bursts of thousands
+    of jobs the driver drops them so that appending stays cheap. -/
+def trim (d : DS) (s : St) : St := if d.quiet then { s with log := [], done := [] } else s
+
+def tryStep (d : DS) (c : Nat) (a : Act) : Option DS := (step d.kind (d.conn c) a).map fun s => d.setConn c (trim d s)
 
 mutual
 /-- let conn `c` run until it is stable: a held job is entered, an ungated job returns, the locked
@@ -49,7 +56,7 @@ partial def settle (d : DS) (c : Nat) : DS :=
         | some d' => settle (d'.emit c "e" x.job) c
         | none => d
     | .finished =>
-      match tryStep d c (.next 0) with
+      match tryStep d c (.next 0 d.big) with
       | some d' => if (d'.conn c).drs.isEmpty then onExit d' c else settle d' c
       | none => d
 
@@ -66,7 +73,7 @@ partial def onExit (d : DS) (c : Nat) : DS :=
   else d
 
 partial def spawnStart (d : DS) (c : Nat) : DS :=
-  match tryStep d c (.spawn 0) with
+  match tryStep d c (.spawn 0 d.big) with
   | some d' => if (d'.conn c).drs.isEmpty then onExit d' c else settle d' c
   | none => d
 end
@@ -79,6 +86,7 @@ def submit (d : DS) (c j : Nat) (must gated nested report : Bool) : DS :=
   | some s' =>
     let accepted := s'.acc.length > s.acc.length
     let newDrainer := s'.drs.length > s.drs.length
+    let s' := if d.quiet then { s' with acc := [] } else s'
     let d := { d.setConn c s' with gated := (j, gated) :: d.gated }
     let inlineOwner := newDrainer && d.exec == "inline" && !nested
     let d := if !report then d
@@ -128,6 +136,7 @@ partial def loop (h : IO.FS.Stream) (d : DS) : IO Unit := do
   let ws := (line.trimAscii.toString.splitOn " ").filter (· ≠ "")
   let fld := fun k => (Drv.field ws k).getD ""
   let nums := (ws.drop 1).filter (fun w => !w.contains '=') |>.map String.toNat!
+  let d := { d with big := fld "big" == "1" }
   match ws.head? with
   | some "C" =>
     let kind := if fld "kind" == "async" then Kind.async else Kind.conn
@@ -198,8 +207,8 @@ partial def loop (h : IO.FS.Stream) (d : DS) : IO Unit := do
         else
           let hold := fld "hold" == "1"
           let must := d.kind == .async
-          let d := d.clear
-          let d := if hold then submit d c (base + 999) must true false false else d
+          let d := { d.clear with quiet := true }
+          let d := if hold then submit d c (base + 9999) must true false false else d
           let d := order.foldl (fun d j => submit d c j must false false false) d
           let d := if hold then
               match tryStep d c (.finish 0 false) with
@@ -207,7 +216,34 @@ partial def loop (h : IO.FS.Stream) (d : DS) : IO Unit := do
               | none => d
             else d
           IO.println s!"acc={want} ran={order.length} jobs={showJobs d}"
-          loop h d.clear
+          loop h { d.clear with quiet := false }
+    | _ => IO.println "bad-op"; loop h d
+  | some "H" =>
+    -- hammer: k goroutines call Execute n times each while another one calls Close
+    match nums with
+    | c :: n :: k :: _ =>
+      let idle := d.conns.all (fun s => s.list.isEmpty)
+      if d.exec == "park" || d.exec == "pool" || !idle || d.kind != .conn || (d.conn c).closed then
+        IO.println "rejected"; loop h d
+      else
+        let base := (fld "base").toNat!
+        let order := ((fld "order").splitOn ",").filter (· ≠ "") |>.map String.toNat!
+        let closeId := 1000 + c
+        let body := order.filter (· != closeId)
+        if order.length != body.length + 1 || !admissible base n k body body.length then
+          IO.println s!"MODEL the jobs that ran are not a merge of prefixes of the {k} submitters' sequences plus the close handler"
+          loop h d
+        else if order.getLast? != some closeId then
+          IO.println "MODEL a job accepted by Execute ran after the close handler (close; submit is refused in the model)"
+          loop h d
+        else
+          let d := { d.clear with quiet := true }
+          let d := body.foldl (fun d j => submit d c j false false false false) d
+          let d := match tryStep d c .close with
+            | some d' => submit d' c closeId true false false false
+            | none => d
+          IO.println s!"acc={body.length} ran={order.length} jobs={showJobs d}"
+          loop h { d.clear with quiet := false }
     | _ => IO.println "bad-op"; loop h d
   | _ => IO.println "bad-op"; loop h d
 
